@@ -143,7 +143,8 @@ class Histories(Suite):
     obs_ty = "obs"
     corr = ("SimpleMemory.add/remove/triples/__len__, Memory.add/remove/triples/__len__ and its context helpers, "
             "Graph.add/addN/remove/set/triples/__len__/__contains__/__iter__/__iadd__/__isub__/__add__/__sub__/__mul__/__xor__, Store.addN")
-    quick_n = 260   # one Coq shard; the Coq evaluation of the observations dominates the quick check
+    quick_n = 260   # the Coq evaluation of the observations dominates the quick check
+    shard = 130     # cases per Coq file: keeps one coqc of this suite well under 1 GB
     thorough_n = 12000
     timeout_s = 20.0
 
